@@ -840,7 +840,13 @@ class IkeSa(object):
                                lifetime=ipsec_conf.lifetime, original_proposal=ipsec_conf.proposal)
 
             self.child_sas.append(child_sa)
-            xfrm.Xfrm.create_child_sa(self, child_sa, child_sa_keyring, is_initiator=False)
+            try:
+                xfrm.Xfrm.create_child_sa(self, child_sa, child_sa_keyring, is_initiator=False)
+            except xfrm.NetlinkError:
+                # do not keep track of (nor leave half installed) a CHILD_SA that the kernel refused
+                self.child_sas.remove(child_sa)
+                xfrm.Xfrm.delete_child_sa(self, child_sa)
+                raise
             self.log_info('Created CHILD_SA {} with lifetime = {}'.format(child_sa, child_sa.lifetime))
 
             # generate the response Payload SA
